@@ -27,13 +27,23 @@ def is_raw_public_bytes(t, of_key):
     return False
 
 
-def pubhex_of_private(t, priv):
-    """t == HEX(priv.public_key().public_bytes(Raw, Raw))"""
+def pubhex_of_private(t, priv, st=None):
+    """t == HEX(priv.public_key().public_bytes(Raw, Raw)) - or of a public key object that the
+    path (st) has shown equivalent to priv.public_key() (is_equivalent_to(...) is True)"""
     n = norm_codec(t)
     if not (isinstance(n, tuple) and n and n[0] == "HEX"):
         return False
     pk = CallT("method:public_key", [priv])
-    return is_raw_public_bytes(n[1], norm_codec(pk)) or is_raw_public_bytes(n[1], pk)
+    if is_raw_public_bytes(n[1], norm_codec(pk)) or is_raw_public_bytes(n[1], pk):
+        return True
+    if st is not None:
+        for f in st.closure():
+            if f[0] == "ret" and f[2] is True and is_call(f[1]) and f[1][1].startswith("repo:common.") and ".is_equivalent_to" in f[1][1] and len(f[1][2]) == 2:
+                a, b = f[1][2]
+                for same, other in ((a, b), (b, a)):
+                    if same in (pk, norm_codec(pk)) and is_raw_public_bytes(n[1], other):
+                        return True
+    return False
 
 
 def signature_hex(t, priv, message):
@@ -98,6 +108,41 @@ class SignSignable:
         if not self.returns:
             raise AnalysisError("sign_signable has no normally returning path")
 
+    def signer_on(self, p):
+        """the key that signs on this path: the `private_key` argument itself, or - on a path for an
+        argument that carries a private key (a key-pair record) - the part of it whose .sign()
+        produces the stored signature"""
+        from sa.walker import State
+
+        keyt = State(facts=p.facts).types(self.priv)
+        if keyt is None or not keyt or any("Ed25519P" in t or t.startswith("obj:common.P") for t in keyt):
+            return self.priv
+        def signers(t):
+            if isinstance(t, tuple):
+                if is_call(t, "method:sign") and t[2]:
+                    yield t[2][0]
+                for y in t:
+                    if isinstance(y, tuple):
+                        yield from signers(y)
+
+        evs = [ev for ev, _d in flatten_events(p.events)]
+        for ev in evs:
+            if ev[0] in ("store", "mutcall") and isinstance(ev[2], tuple):
+                r0 = ev[2]
+                while isinstance(r0, tuple) and r0 and r0[0] in ("sub", "attr"):
+                    r0 = r0[1]
+                if r0 != self.signable:
+                    continue
+                vals = [ev[3]] if ev[0] == "store" else list(ev[4])
+                for v in vals:
+                    for x in signers(self.eng.expand(materialise(self.eng.expand(v), evs))):
+                        r = x
+                        while isinstance(r, tuple) and r and r[0] in ("sub", "attr"):
+                            r = r[1]
+                        if r == self.priv and x != self.priv:
+                            return x
+        return self.priv
+
     def stores(self, p):
         return [ev for ev, _d in flatten_events(p.events) if ev[0] in ("store", "del", "mutcall")]
 
@@ -132,7 +177,10 @@ def agreement(ctx, rule):
                 continue
             n += 1
             s = ev[1]
-            filed = pubhex_of_private(eng.expand(tgt[2]), w.priv)
+            from sa.walker import State as _State
+
+            signer = w.signer_on(p)
+            filed = pubhex_of_private(eng.expand(tgt[2]), signer, _State(facts=p.facts))
             ctx.ob(rule, "agree-filing|%s" % s.key(), s.loc(), "signer files its entry under %s" % ("hex(raw public key of the signing key): the verifier rebuilds exactly that key from the map key" if filed else "something else than hex(raw public key bytes of the signing key): " + show(tgt[2])[:140]), filed)
             before = []
             for e0 in evs_p:
@@ -143,7 +191,7 @@ def agreement(ctx, rule):
             if sig is None:
                 ctx.ob(rule, "agree-entry|%s" % s.key(), s.loc(), "signer's entry is not the one-field {'signature': ...} object the verifier reads (%s)" % show(val)[:120], False)
                 continue
-            ok, why = signature_hex(sig, w.priv, msg_w)
+            ok, why = signature_hex(sig, signer, msg_w)
             ctx.ob(rule, "agree-entry|%s" % s.key(), s.loc(), "signer's entry is {'signature': hex(sign(canonical payload))}, the field, codec and message the verifier checks" if ok else "signer's entry disagrees with the verifier: " + why, ok)
     ctx.count(rule + ".signer_stores", n)
     if n < 1:
